@@ -46,8 +46,9 @@ def gen(rng, tier):
             toks.append(f"{t}:{R.hexs(v)}")
         for _i in range(rng.choice([0, 1, 1, 2])):
             toks.insert(rng.randrange(len(toks) + 1), rng.choice(["80:N16", "80:" + R.hexs(R.rand_bytes(rng, 16))]))
-        # precondition of the serialiser: a Message-Authenticator attribute has 16 octets (parse, ensuremsgauthfront, respond guarantee it)
-        toks = [t for t in toks if not t.startswith("80:") or t == "80:N16" or len(t) == 3 + 32]
+        # a Message-Authenticator attribute of any other length than 16 (a configured addAttribute 80:… can make one) is refused
+        if rng.random() < 0.2:
+            toks.insert(rng.choice([len(toks), len(toks), rng.randrange(len(toks) + 1)]), "80:" + R.hexs(R.rand_bytes(rng, rng.choice([0, 1, 4, 4, 15, 17, 32]))))
         auth = bytes(16) if code == 4 else R.rand_bytes(rng, 16)
         cs.append(Case(f"serialize {R.hexs(sec) if rng.random() < 0.9 else '.'} {code} {rng.randrange(256)} {R.hexs(auth)} " + " ".join(toks), kind="serialize", forwarded=True))
     return cs
